@@ -1029,6 +1029,16 @@ def tables_read_only(rep, M, rid, only_import=False):
                 return from_table(e.func.value, at, depth + 1)
             if isinstance(e, ast.Call) and isinstance(e.func, ast.Name) and e.func.id in ("enumerate", "zip", "reversed", "iter") and e.args:
                 return from_table(e.args[0], at, depth + 1)
+            if isinstance(e, (ast.ListComp, ast.GeneratorExp, ast.SetComp)):
+                return from_table(e.elt, at, depth + 1)        # a fresh container whose *elements* are table objects
+            if isinstance(e, (ast.List, ast.Tuple)):
+                for v in e.elts:
+                    r = from_table(v, at, depth + 1)
+                    if r:
+                        return r
+                return None
+            if isinstance(e, ast.Starred):
+                return from_table(e.value, at, depth + 1)
             if isinstance(e, ast.IfExp):
                 return from_table(e.body, at, depth + 1) or from_table(e.orelse, at, depth + 1)
             if isinstance(e, ast.BoolOp):
@@ -1169,6 +1179,67 @@ def module_state(rep, M, rid, prefixes=SYMMETRY_SIDE, roots=None):
                 dn = ast.unparse(dec)
                 if "lru_cache" in dn or dn.endswith("cache") or dn.endswith("cache()"):
                     hits.append((mname, fn.name, dec, dn))
+    # class-level mutable attributes that are modified through an instance and never rebound per instance: shared by all objects of the class
+    MUT_PREFIX = ("add", "remove", "append", "extend", "insert", "pop", "clear", "update", "discard", "sort", "fill", "setdefault")
+    E_shared = None
+    IMMUTABLE_CALLS = {"tuple", "frozenset", "int", "float", "str", "bool", "bytes", "property", "namedtuple", "object"}
+    for mname, tree in M.mods.items():
+        if not any(mname == pf or mname.startswith(pf + ".") for pf in prefixes):
+            continue
+        for cls in [c for c in ast.walk(tree) if isinstance(c, ast.ClassDef)]:
+            shared_attrs = {}
+            for st in cls.body:
+                if isinstance(st, ast.Assign) and len(st.targets) == 1 and isinstance(st.targets[0], ast.Name):
+                    v = st.value
+                    if isinstance(v, (ast.Dict, ast.List, ast.Set, ast.ListComp, ast.DictComp, ast.SetComp)) or \
+                            (isinstance(v, ast.Call) and norm(v.func).split(".")[-1] not in IMMUTABLE_CALLS):
+                        shared_attrs[st.targets[0].id] = st
+            if not shared_attrs:
+                continue
+            methods = [f for f in cls.body if isinstance(f, ast.FunctionDef)]
+            rebound = {t.attr for f in methods if f.name == "__init__" for s2 in ast.walk(f) if isinstance(s2, ast.Assign) for t in s2.targets
+                       if isinstance(t, ast.Attribute) and norm(t.value) == "self"}
+            for attr, st in shared_attrs.items():
+                if attr in rebound:
+                    continue
+                # handed to a callee that modifies its parameter, anywhere in the package (`finder._track(collection._search_graph, ...)`)
+                if E_shared is None:
+                    from .effects import Effects
+                    E_shared = Effects(M)
+                found = False
+                for q2, d2 in M.functions().items():
+                    for c2 in [c for c in ast.walk(d2) if isinstance(c, ast.Call)]:
+                        for callee in M.callees_of_call(q2, c2):
+                            for p2, a in M.bind_args(callee, c2).items():
+                                if p2 in E_shared.mut.get(callee, ()) and isinstance(a, ast.Attribute) and a.attr == attr and not found:
+                                    hits.append((M.owner_mod.get(q2, mname), q2.split(".")[-1], c2,
+                                                 f"{cls.name}.{attr} (class attribute `{norm(st)[:40]}`, never rebound in __init__: one object for all instances; "
+                                                 f"{callee.split('.')[-1]}() modifies it through its parameter `{p2}`)"))
+                                    found = True
+                if found:
+                    continue
+                for f in methods:
+                    aliases = {a.targets[0].id for a in ast.walk(f) if isinstance(a, ast.Assign) and len(a.targets) == 1 and isinstance(a.targets[0], ast.Name)
+                               and isinstance(a.value, ast.Attribute) and a.value.attr == attr and norm(a.value.value) in ("self", "cls", cls.name)}
+
+                    def is_it(e):
+                        while isinstance(e, ast.Subscript):
+                            e = e.value
+                        return (isinstance(e, ast.Attribute) and e.attr == attr and norm(e.value) in ("self", "cls", cls.name)) or (isinstance(e, ast.Name) and e.id in aliases)
+                    for s2 in ast.walk(f):
+                        hit = None
+                        if isinstance(s2, ast.Call) and isinstance(s2.func, ast.Attribute) and s2.func.attr.startswith(MUT_PREFIX) and is_it(s2.func.value):
+                            hit = s2
+                        elif isinstance(s2, (ast.Assign, ast.AugAssign)):
+                            for t in (s2.targets if isinstance(s2, ast.Assign) else [s2.target]):
+                                if isinstance(t, ast.Subscript) and is_it(t):
+                                    hit = s2
+                        if hit is not None:
+                            hits.append((mname, f.name, hit, f"{cls.name}.{attr} (class attribute `{norm(st)[:40]}`, never rebound in __init__: one object for all instances)"))
+                            break
+                    else:
+                        continue
+                    break
     rep.count("modules_scanned_for_shared_state", n_mod)
     if reach is not None:
         for mname, fname, node, what in hits:
